@@ -32,6 +32,14 @@ CANON_WHAT = ("TwoParticleGFContainer: after prepareAll(S); prepareAll(S); compu
               "NonTrivialElements, so computeAll_split computes the stale elements of the earlier fill and the listed ones stay "
               "uncomputed (same root cause: fill(S); prepareAll(S); computeAll(split) throws 'Object status mismatch')")
 
+# two-site model: a key that is absent, not an alias of anything stored and not vanishing is requested on demand after a bulk
+# computation, prepared and computed through the container and evaluated -- with the stored key above and below it in map order
+ONDEMAND_CORPUS = [
+    [("prep", [a]), ("compall", sp), ("lookup", b), ("prepelem", b), ("compelem", b), ("eval", b, (0, 1, 2)), ("eval", a, (0, 1, 2)), ("eval", b, (1, 0, -1))]
+    for sp, (a, b) in enumerate([((0, 2, 0, 2), (0, 1, 0, 1)), ((0, 1, 0, 1), (0, 2, 0, 2)), ((1, 2, 1, 2), (0, 2, 0, 2)), ((0, 1, 0, 1), (1, 2, 1, 2))])
+    ] + [[("prep", [(0, 1, 0, 1), (1, 2, 1, 2)]), ("compall", 1), ("compelem", (0, 2, 0, 2)), ("eval", (0, 2, 0, 2), (0, 1, 2)), ("eval", (2, 0, 0, 2), (0, 1, 2))]]
+ONDEMAND_CORPUS = [[(o[0], o[1] % 2) if o[0] == "compall" else o for o in h] for h in ONDEMAND_CORPUS]
+
 # histories always run first (regression seeds; the first one is the canonical witness of the *_refuted theorems)
 CORPUS = [
     CANON_HISTORY,
@@ -222,8 +230,27 @@ def agree(hs, impl, mod, oracle):
 def property_violations(hs, impl, ghost, oracle):
     """the property text applied to the implementation's trace. -> list of (op number, description)."""
     bad = []
+    # the caller's own record of what it did to elements obtained on demand since the last refill: "prepared and computed ... on
+    # the element obtained on demand" does not depend on what the container lists (the extracted caller's view follows the listing,
+    # so a container that hands out the element of ANOTHER key and never lists the requested one would otherwise escape)
+    prepared, computed = set(), set()
     for k, (op, a, g) in enumerate(zip(hs, impl, ghost), 1):
         r = a["R"]
+        if op[0] in ("fill", "prep"):
+            prepared, computed = set(), set()
+        elif op[0] == "prepelem" and r.startswith("UNIT"):
+            prepared.add(op[1])
+        elif op[0] == "compelem" and r.startswith("UNIT") and op[1] in prepared:
+            computed.add(op[1])
+        if op[0] == "eval" and g != "X" and op[1] in computed:
+            ref = oracle.get((op[1], op[2]))
+            if r.startswith("THROWS"):
+                bad.append((k, "evaluation of %s at %s throws '%s' although the caller prepared and computed the element it obtained on demand for "
+                               "that quadruple (fresh TwoParticleGF: %s)" % (op[1], op[2], r[7:60], ref)))
+            elif r.startswith("VAL") and (ref is None or not close(impl_value(r), ref)):
+                bad.append((k, "evaluation of %s at %s returns %s, a fresh TwoParticleGF for that quadruple gives %s (the caller prepared and computed "
+                               "the element it obtained on demand for that quadruple; the container does not list the quadruple)"
+                               % (op[1], op[2], impl_value(r), ref)))
         if op[0] == "eval" and g == "X":
             ref = oracle.get((op[1], op[2]))
             if r.startswith("THROWS"):
@@ -444,6 +471,8 @@ def distributed_slice(chk, quick):
             chk.tie_broken("h_c06 single-rank reference (C13 distributed slice)", "rc=%s %s" % (rc, err))
             continue
         rc, ranks, err = C06.launch(h, P, cmds, threads=1, timeout=60)
+        if rc != 0:      # a loaded machine: once more with a generous limit before the launch is given up
+            rc, ranks, err = C06.launch(h, P, cmds, threads=1, timeout=300)
         chk.case("mpi %d %d" % (P, nc), "distributed bulk computation P=%d stored=%d %s" % (P, nc, "P|n" if nc % P == 0 else "P!|n"), True, None)
         if rc != 0:
             chk.notes.append("distributed slice: launch P=%d with %d components ended with rc=%s (termination is decided by C06)" % (P, nc, rc))
@@ -491,7 +520,7 @@ def run(chk):
         name, scen, nidx, sub = model
         runner = Runner(env, model)
         hists = [h for h in CORPUS] if name == CANON_MODEL else [[("prep", [(0, 2, 0, 2)]), ("prep", [(0, 2, 0, 2), (1, 1, 2, 2)]), ("compall", 1),
-                                                                 ("eval", (2, 0, 2, 0), (0, 1, 2)), ("eval", (1, 1, 2, 2), (0, 0, 0))]]
+                                                                 ("eval", (2, 0, 2, 0), (0, 1, 2)), ("eval", (1, 1, 2, 2), (0, 0, 0))]] + ONDEMAND_CORPUS
         if name == CANON_MODEL:
             hists += exhaustive(2 if quick else 3)
         hists += [gen_history(chk.rng, model, quick) for _ in range(nrand[name])]
